@@ -13,8 +13,8 @@ CHECKS = {
          'DESIGN.md section 5, C13'),
  'C19': ('model_checking',
          'exhaustive enumeration of trees x pruning actions x extension timing sets on the real Visitor.walkabout/walk against an executable reading of the documented contract; explicit protocol state graph',
-         'Every ordered tree up to 4 (thorough 5) nodes x every assignment of {none, SkipChildren, SkipSiblings, SkipNode, SkipDeparture} to each node x 20 extension timing sets is walked by the real Visitor.walkabout and Visitor.walk with instrumented main visitor and VisitorExt subclasses; the recorded enter/leave trace is checked against the invariants of the statement (enter at most once, every extension enter has a leave, nesting like the tree, documented relative order) and against a 30-line reference model of the documented contract. The state graph of the walk protocol (stack of open frames) is accumulated and reported. Second half: the real ASTBuilder walks every module of the statement alphabet x 6 placements and must be back at rest (scope stack empty).',
-         'Trusted: the reference reading of the docstrings in pydoctor/visitor.py; pruning exceptions are raised by the main visitor in visit only.',
+         'Every ordered tree up to 4 (thorough 5) nodes x every assignment of {none, SkipChildren, SkipSiblings, SkipNode, SkipDeparture, SkipSiblings raised from the depart method} to each node x 20 extension timing sets is walked by the real Visitor.walkabout and Visitor.walk with instrumented main visitor and VisitorExt subclasses; the recorded enter/leave trace is checked against the invariants of the statement (enter at most once, every extension enter has a leave, nesting like the tree, documented relative order) and against a 30-line reference model of the documented contract. The state graph of the walk protocol (stack of open frames) is accumulated and reported. Second half: the real ASTBuilder walks every module of the statement alphabet x 6 placements and must be back at rest (scope stack empty).',
+         'Trusted: the reference reading of the docstrings in pydoctor/visitor.py; pruning exceptions are raised by the main visitor (from visit, and SkipSiblings also from depart); histories of two (thorough three) walks of one visitor with extensions registered in between.',
          'DESIGN.md section 5, C19'),
  'C05': ('model_checking',
          'exhaustive enumeration of all class-definition sequences (ordered base choices) up to five classes through source->System->Class.mro(), differential against CPython type()/__mro__/inspect.getdoc',
@@ -32,13 +32,13 @@ CHECKS = {
          'Trusted: CPython ast.parse as oracle; the layout generator (validated by ast.parse).',
          'DESIGN.md section 5, C14'),
  'C02': ('model_checking',
-         'explicit-state exploration of analysis histories (event sequences) x processing orders on the real System; invariants I1-I9 evaluated on every reached state',
-         'Every history of up to 3 (thorough 4) events over an 18-event alphabet (define, redefine as class/function/variable, nest, documented-only field, instance attribute, re-export move / renamed / star / by sibling, local definition in the re-exporter, consumers, in-module subclass, two kinds of import cycle, zope implementer) is turned into a 3-module project and built by the real System in both processing orders of the siblings (thorough: 222 300 executions, 10 413 distinct final states). On every final state the nine invariants of the statement are evaluated: registry keys = current qualified names, each object once; contents/parent agreement; parent chains rooted and registered; non-entries are superseded duplicates; kinds fit places; MRO head/once; subclasses = inverse of bases; implements/implementedby; distinct page names. Failing histories are delta-minimised to the events that matter.',
+         'explicit-state exploration of analysis histories (event sequences) x processing orders on the real System; invariants I1-I8 evaluated on every reached state',
+         'Every history of up to 3 (thorough 4) events over a 42-event alphabet (define, redefine as class/function/variable, nest, documented-only field, instance attribute, re-export move / renamed / star / by sibling, local definition in the re-exporter, consumers, in-module subclass, two kinds of import cycle, zope implementer) is turned into a 3-module project and built by the real System in both processing orders of the siblings (thorough: 222 300 executions, 10 413 distinct final states). On every final state the nine invariants of the statement are evaluated: registry keys = current qualified names, each object once; contents/parent agreement; parent chains rooted and registered; non-entries are superseded duplicates; kinds fit places; MRO head/once; subclasses = inverse of bases; implements/implementedby; distinct page names. Failing histories are delta-minimised to the events that matter.',
          'Trusted: the invariant evaluator (120 lines); the event alphabet; in-memory module builds (the on-disk path is cross-checked by C06/C07).',
          'DESIGN.md section 5, C02'),
  'C06': ('model_checking',
          'exhaustive enumeration of processing schedules (all sibling permutations per package, all root orders) for every program of a bounded feature family on the real System; canonical dumps compared across schedules; union processing state graph',
-         'Programs are all sets of up to 2 (thorough 3) features out of 33 (cross-module bases by from-import / module attribute / star import, exception and instance-variable inheritance across modules, Final/overload/zope-Interface/__doc__-update reached through module aliases, re-exports by one module with consumers on both sides, alias chains, docformat, three kinds of import cycle) on three skeletons (flat package, sub-package, two roots). Each program is built by the real System under EVERY reachable schedule (6 / 12 / 4), imposed on System.unprocessed_modules, and the canonical dump (type, kind, docstring, bases, resolved bases, MRO, overloads, interface-ness) must be equal across schedules; for programs whose import graph has a cycle only the class hierarchy is compared. Order-dependent programs are minimised to the responsible features. On-disk cross-validation shadows the sorted() call of addPackage.',
+         'Programs are all sets of up to 2 (thorough 3) features out of 53 (cross-module bases by from-import / module attribute / star import, exception and instance-variable inheritance across modules, Final/overload/zope-Interface/__doc__-update reached through module aliases, re-exports by one module with consumers on both sides, alias chains, docformat, three kinds of import cycle) on three skeletons (flat package, sub-package, two roots). Each program is built by the real System under EVERY reachable schedule (6 / 12 / 4), imposed on System.unprocessed_modules, and the canonical dump (type, kind, docstring, bases, resolved bases, MRO, overloads, interface-ness) must be equal across schedules; for programs whose import graph has a cycle only the class hierarchy is compared. Order-dependent programs are minimised to the responsible features. On-disk cross-validation shadows the sorted() call of addPackage.',
          'Trusted: the dump (what is compared); the schedule seam (order of unprocessed_modules, validated against the real directory-listing path); import-cycle detection by ast.',
          'DESIGN.md section 5, C06'),
  'C07': ('model_checking',
@@ -53,7 +53,7 @@ CHECKS = {
          'DESIGN.md section 5, C03'),
  'C04': ('exploration',
          'exhaustive enumeration of import/alias statement templates (singles, thorough: ordered pairs) x consumer scopes on a two-root skeleton; differential against a real CPython import of the same files',
-         'A 38-template alphabet (plain / aliased / relative level 1-2 / star imports, imports of packages, sub-modules and re-imported names, multi-target imports, alias assignments through names and module paths) is placed in 9 consumer scopes (module, package __init__, sub-package __init__, module of another root, a class body in each, a nested class body). Each project is first imported by CPython (statements it rejects or that bind a name twice are filtered), then analysed by pydoctor from the same files. Every name bound in the scope and every dotted extension up to 3 parts that CPython evaluates to an ID-carrying object is resolved with resolveName: a returned object must carry the same ID (soundness); names imported directly from their defining module and paths through module aliases must resolve (completeness).',
+         'An 85-template alphabet (plain / aliased / relative level 1-2 / star imports, imports of packages, sub-modules and re-imported names, multi-target imports, alias assignments through names and module paths) is placed in 9 consumer scopes (module, package __init__, sub-package __init__, module of another root, a class body in each, a nested class body). Each project is first imported by CPython (statements it rejects or that bind a name twice are filtered), then analysed by pydoctor from the same files. Every name bound in the scope and every dotted extension up to 3 parts that CPython evaluates to an ID-carrying object is resolved with resolveName: a returned object must carry the same ID (soundness); names imported directly from their defining module and paths through module aliases must resolve (completeness).',
          'Trusted: CPython import machinery as oracle; ID docstrings as identity. Self-imports (a module importing itself) count as cycles and are not judged.',
          'DESIGN.md section 5, C04'),
  'C08': ('fault_enumeration',
